@@ -25,6 +25,7 @@ import (
 type ExecOpts struct {
 	BankFailEnum  bool // C07(b): enumerate a failure of every begin-block bank call on scratch replicas
 	MaxEnumBlocks int
+	EnumAll       bool // enumerate in every schedule (replay of an enumeration violation)
 	Queries       bool // C16: issue gRPC queries with every filter combination after blocks
 	QueryEvery    int
 	Trace         bool // C18/C19: per-tx KV write sets through the store tracer
@@ -591,7 +592,9 @@ func (e *execState) runBlock(bi int, blk *Block, prev *Snap) (*blockObs, bool) {
 		}
 		return node.Finalize(blk.TimeNs, txBytes, oeMode), perr
 	}
-	if e.opt.BankFailEnum && res.Stats.Probes["enum_blocks"] < maxInt(e.opt.MaxEnumBlocks, 1) {
+	// the enumeration forks one scratch replica per injected call (~80 ms each): it is applied to every
+	// third schedule so that the fault-free half of C07 keeps its breadth
+	if e.opt.BankFailEnum && (e.opt.EnumAll || uint64(e.s.Seed)%3 == 0) && res.Stats.Probes["enum_blocks"] < maxInt(e.opt.MaxEnumBlocks, 1) {
 		e.enumBankFail(bi, blk, txBytes, prev)
 	}
 	br, preErrs := exec(n, oe)
@@ -934,6 +937,21 @@ func classifyHalt(msg string) string {
 	case strings.Contains(msg, "insufficient funds"):
 		return "insufficient-funds"
 	}
+	// keep the class key structural: numbers (amounts, ids) are replaced
+	var sb strings.Builder
+	prevDigit := false
+	for _, r := range msg {
+		if r >= '0' && r <= '9' {
+			if !prevDigit {
+				sb.WriteByte('N')
+			}
+			prevDigit = true
+			continue
+		}
+		prevDigit = false
+		sb.WriteRune(r)
+	}
+	msg = sb.String()
 	if len(msg) > 60 {
 		msg = msg[:60]
 	}
@@ -971,8 +989,8 @@ func (e *execState) compareExecutions(bi int, how string, a, b *BlockResult) {
 	if a.Resp == nil || b.Resp == nil {
 		return
 	}
-	ab, _ := a.Resp.Marshal()
-	bb, _ := b.Resp.Marshal()
+	ab := consensusBytes(a.Resp)
+	bb := consensusBytes(b.Resp)
 	if string(ab) != string(bb) {
 		e.res.addV("C14", "reexec.response", how, fmt.Sprintf("block %d re-executed after %s produced a different FinalizeBlock response (%s)", bi, how, firstEventDiff(a.Resp, b.Resp)), bi, -1)
 	}
@@ -1011,7 +1029,21 @@ func firstEventDiff(a, b *abci.ResponseFinalizeBlock) string {
 	}
 	for i := range a.TxResults {
 		if i < len(b.TxResults) && a.TxResults[i].String() != b.TxResults[i].String() {
-			return fmt.Sprintf("tx result %d differs", i)
+			x, y := a.TxResults[i], b.TxResults[i]
+			switch {
+			case x.Code != y.Code:
+				return fmt.Sprintf("tx result %d: code %d vs %d", i, x.Code, y.Code)
+			case x.GasUsed != y.GasUsed || x.GasWanted != y.GasWanted:
+				return fmt.Sprintf("tx result %d: gas used %d vs %d", i, x.GasUsed, y.GasUsed)
+			case len(x.Events) != len(y.Events):
+				return fmt.Sprintf("tx result %d: %d vs %d events", i, len(x.Events), len(y.Events))
+			}
+			for k := range x.Events {
+				if x.Events[k].String() != y.Events[k].String() {
+					return fmt.Sprintf("tx result %d event %d: %s vs %s", i, k, abbreviate(x.Events[k].String()), abbreviate(y.Events[k].String()))
+				}
+			}
+			return fmt.Sprintf("tx result %d differs (data/info/codespace)", i)
 		}
 	}
 	return "other field"
@@ -1022,4 +1054,20 @@ func abbreviate(s string) string {
 		return s[:200] + "…"
 	}
 	return s
+}
+
+// consensusBytes: the FinalizeBlock response without the fields CometBFT itself declares
+// non-deterministic (tx Log and Info: a recovered panic's log carries a stack trace with goroutine
+// ids and addresses). Everything else - codes, data, gas, all events in order, validator and
+// parameter updates, app hash - is compared byte for byte.
+func consensusBytes(r *abci.ResponseFinalizeBlock) []byte {
+	c := *r
+	c.TxResults = make([]*abci.ExecTxResult, len(r.TxResults))
+	for i, t := range r.TxResults {
+		x := *t
+		x.Log, x.Info = "", ""
+		c.TxResults[i] = &x
+	}
+	b, _ := c.Marshal()
+	return b
 }
